@@ -331,6 +331,8 @@ fn main() -> Result<(), Box<dyn std::error::Error>> {
         // https://doc.rust-lang.org/cargo/reference/build-scripts.html#outputs-of-the-build-script
         println!("cargo::rustc-check-cfg=cfg({cfg_name}, values(none()))");
     }
+    // Verification hooks (see src/platform.rs); declared so the cfg is known when it is off.
+    println!("cargo::rustc-check-cfg=cfg(blake3_team_blake3_verif, values(none()))");
 
     if is_pure() && is_neon() {
         panic!("It doesn't make sense to enable both \"pure\" and \"neon\".");
